@@ -183,3 +183,76 @@ Theorem Sqrt_not_correctly_rounded :
   wf_b k1_x = true /\ Sqrt false k1_z k1_x = OkR k1_r /\ wf_b k1_r = true /\
   dform k1_r = Ffinite /\ prec k1_r = 30 /\ sqrt_result_ok ToNearestEven k1_x k1_r = false.
 Proof. vm_compute. repeat split. Qed.
+
+(* ------------------------------------------------------------------ *)
+(* the exponent split: Sqrt runs sqrtInverse on x's mantissa with the exponent
+   b rem 2 (so 0.01 <= value < 10) and re-attaches b quot 2 *)
+From Coq Require Import QArith Lqa.
+From Dec Require Import Base.WordsProofs Base.QPow L3.CmpProofs.
+
+Theorem Sqrt_exponent same z x :
+  WF x -> dform x = Ffinite -> neg x = false -> (same = true -> z = x) ->
+  exists z4,
+    Sqrt same z x = bindR (sqrtInverse z4) (fun r => SetMantExp true r r (Z.quot (exp x) 2)) /\
+    mant z4 = mant x /\ exp z4 = Z.rem (exp x) 2 /\ dform z4 = Ffinite /\ neg z4 = false /\
+    prec z4 = sqrt_prec z x /\ dmode z4 = dmode z /\
+    (mag x == mag z4 * Qpow10 (2 * Z.quot (exp x) 2))%Q /\
+    (scaled 1 (-2) <= mag z4)%Q /\ (mag z4 < scaled 1 1)%Q.
+Proof.
+  intros Wx Fx Nx Hsame.
+  pose proof (WF_finite x Wx Fx) as Hx.
+  set (b := exp x).
+  pose proof (Z.quot_rem' b 2) as QR.
+  pose proof (Z.rem_bound_abs b 2 ltac:(lia)) as RB.
+  set (r := Z.rem b 2) in *.
+  set (z1 := if prec z =? 0 then with_prec z (prec x) else z).
+  set (z4 := mkDec (mant x) r (prec z1) (dmode z1) (acc x) Ffinite false).
+  exists z4.
+  assert (P1 : prec z1 = sqrt_prec z x /\ dmode z1 = dmode z).
+  { unfold z1, sqrt_prec. destruct (prec z =? 0); split; reflexivity. }
+  destruct P1 as [P1 M1].
+  split.
+  - unfold Sqrt, Sign. rewrite Fx, Nx. cbn [Z.eqb]. fold z1. unfold MantExp_exp. rewrite Fx. fold b. fold r.
+    assert (E : MantExp_mant same z1 x =
+                OkR (mkDec (mant x) 0 (prec x) (dmode x) (acc x) Ffinite false)).
+    { unfold MantExp_mant, Copy. destruct same.
+      - specialize (Hsame eq_refl). subst z. unfold z1.
+        destruct (prec x =? 0); cbn [dform with_prec]; rewrite Fx; cbn; rewrite <- Nx, <- Fx; destruct x; reflexivity.
+      - rewrite Fx, Nx. reflexivity. }
+    rewrite E. cbn [bindR].
+    assert (E4 : (let z0 := with_mode (with_prec (mkDec (mant x) 0 (prec x) (dmode x) (acc x) Ffinite false) (prec z1)) (dmode z1) in
+                  if r =? 1 then with_exp z0 (i32 (exp z0 + 1)) else if r =? -1 then with_exp z0 (i32 (exp z0 - 1)) else z0) = z4).
+    { cbv zeta. unfold z4.
+      destruct (Z.eqb_spec r 1) as [->|]; [reflexivity|]. destruct (Z.eqb_spec r (-1)) as [->|]; [reflexivity|].
+      replace r with 0 by lia. reflexivity. }
+    cbv zeta in E4. rewrite E4. reflexivity.
+  - split; [reflexivity|]. split; [reflexivity|]. split; [reflexivity|]. split; [reflexivity|].
+    split; [exact P1|]. split; [exact M1|].
+    assert (Hz4 : WFfin (with_prec (with_exp x r) (prec x))).
+    { destruct Hx as [Hne Hok Htop Hprec Hexp Htail]. constructor; cbn [mant prec exp with_prec with_exp]; try assumption.
+      unfold MinExp, MaxExp. lia. }
+    pose proof (mag_bounds _ Hz4) as [Blo Bhi].
+    assert (Em : mag (with_prec (with_exp x r) (prec x)) = mag z4) by reflexivity.
+    rewrite Em in Blo, Bhi. cbn [exp with_prec with_exp] in Blo, Bhi.
+    split; [|split].
+    + unfold mag. cbn [mant exp z4]. fold b. unfold scaled.
+      replace (b - mdigits (mant x)) with ((r - mdigits (mant x)) + 2 * Z.quot b 2) by lia.
+      rewrite Qpow10_add. ring.
+    + apply Qle_trans with (scaled 1 (r - 1)); [apply scaled1_le; lia|exact Blo].
+    + apply Qlt_le_trans with (scaled 1 r); [exact Bhi|apply scaled1_le; lia].
+Qed.
+
+(* K1 on a perfect square: Sqrt(9) into a 4-digit ToZero receiver is 2.999, and
+   into a 34-digit ToPositiveInf receiver 3.000000000000000000000000000000001 *)
+Definition nine : Dec := mkDec [9000000000000000000] 1 1 ToNearestEven Exact Ffinite false.
+Definition k1_sq_r : Dec := Eval vm_compute in ores_get (Sqrt false (mkDec [] 0 4 ToZero Exact Fzero false) nine).
+Definition k1_sq_r' : Dec := Eval vm_compute in ores_get (Sqrt false (mkDec [] 0 34 ToPositiveInf Exact Fzero false) nine).
+
+Theorem Sqrt_perfect_square_not_exact :
+  Sqrt false (mkDec [] 0 4 ToZero Exact Fzero false) nine = OkR k1_sq_r /\
+  mant k1_sq_r = [2999000000000000000] /\ exp k1_sq_r = 1 /\
+  sqrt_result_ok ToZero nine k1_sq_r = false /\
+  Sqrt false (mkDec [] 0 34 ToPositiveInf Exact Fzero false) nine = OkR k1_sq_r' /\
+  mant k1_sq_r' = [10000; 3000000000000000000] /\ exp k1_sq_r' = 1 /\ prec k1_sq_r' = 34 /\
+  sqrt_result_ok ToPositiveInf nine k1_sq_r' = false.
+Proof. vm_compute. repeat split. Qed.
